@@ -1,7 +1,7 @@
 """Builds the corpus against /repo's working tree, runs the real code and the Lean driver, collects results."""
 import hashlib, json, os, re, shutil, subprocess, sys, time, fcntl
 
-import gen, render, dumpparse, rustexpr
+import gen, render, dumpparse, rustexpr, structure
 
 VERIF = os.environ.get("VERIF_ROOT") or os.path.dirname(os.path.dirname(os.path.abspath(__file__)))
 REPO = os.environ.get("VERIF_REPO", "/repo")
@@ -419,6 +419,10 @@ def _build_and_run(tier, seed, profiles, decls_override=None):
             model.setdefault(ws_[1], {})["surface"] = [x.split(":") for x in ws_[2:] if x]
         elif ws_[0] == "builder":
             model.setdefault(ws_[1], {})["builder"] = " ".join(ws_[2:])
+        elif ws_[0] == "debugimpl":
+            model.setdefault(ws_[1], {})["debugimpl"] = ws_[2:]
+        elif ws_[0] == "enumarms":
+            model.setdefault(ws_[1], {})["enumarms"] = ws_[2:]
         elif ws_[0] == "body":
             model.setdefault(ws_[1], {}).setdefault("bodies", {})[ws_[2]] = " ".join(ws_[3:])
         elif ws_[0].startswith("bad-"):
@@ -459,6 +463,56 @@ def _build_and_run(tier, seed, profiles, decls_override=None):
     ast["untranslatable_count"] = len(ast["untranslatable"])
     ast["differ"] = ast["differ"][:300]
     ast["untranslatable"] = ast["untranslatable"][:100]
+
+    # ---- structural comparison of the non-expression parts: Debug impl, builder, enum conversions ----------------------
+    struct_cmp = {"equal": 0, "differ": []}
+    for name, text in dump_texts.items():
+        d = table[name]
+        m = model.get(name, {})
+        try:
+            items = dumpparse.parse_dump(text)
+        except Exception as e:  # noqa
+            struct_cmp["differ"].append([name, "dump", "parse failed: %s" % e, ""])
+            continue
+        def cmp(what, real_fn, want):
+            try:
+                real = real_fn()
+            except ValueError as e:
+                struct_cmp["differ"].append([name, what, "unexpected shape: %s" % e, json.dumps(want)[:300]])
+                return
+            if json.loads(json.dumps(real)) == json.loads(json.dumps(want)):
+                struct_cmp["equal"] += 1
+            else:
+                struct_cmp["differ"].append([name, what, json.dumps(real)[:500], json.dumps(want)[:500]])
+        if d["kind"] == "bitfield" and "debugimpl" in m:
+            di = m["debugimpl"]
+            want = None if di == ["-"] else [di[0], [render.ident_noraw(x) for x in di[1:] if x]]
+            cmp("debug", lambda: (lambda r: None if r is None else [r[0], [render.ident_noraw(x) for x in r[1]]])(structure.debug_impl(items, name)), want)
+            mb = m.get("builder", "none")
+            if mb == "none":
+                want_b = None
+            else:
+                steps = []
+                for w in mb.split(" ")[1:]:
+                    if w and not w.startswith("final="):
+                        fn = w.rsplit(":", 2)[0]
+                        fdef = next((x for x in d["fields"] if x["name"] == fn), None)
+                        steps.append(["with_" + render.ident_noraw(fn), fdef["count"] if fdef else None])
+                want_b = {"start": "DEFAULT" if d["default"] else "zero", "steps": steps, "build": True}
+            cmp("builder", lambda: structure.builder_desc(items, name), want_b)
+        if d["kind"] == "bitenum" and "enumarms" in m:
+            ea = m["enumarms"]
+            kvs = dict(x.split("=") for x in ea if "=" in x)
+            arms = []
+            for x in ea:
+                if "=" not in x and x.count(":") == 2:
+                    vn, dv, cf = x.split(":")
+                    arms.append([int(dv), vn, cf == "1"])
+            raw = ["uint", kvs["base"], int(kvs["size"])] if kvs["arb"] == "1" else ["native", kvs["base"]]
+            want_e = {"raw": raw, "reader": kvs["arb"] == "1", "nonexh": kvs["nonexh"] == "1", "arms": arms}
+            cmp("enum", lambda: structure.enum_desc(items, name), want_e)
+    struct_cmp["differ_count"] = len(struct_cmp["differ"])
+    struct_cmp["differ"] = struct_cmp["differ"][:200]
 
     # ---- phase C: runner ----------------------------------------------------------------------------
     t0 = time.time()
@@ -582,6 +636,7 @@ def _build_and_run(tier, seed, profiles, decls_override=None):
         "token_scan": token_scan,
         "chains": chains,
         "ast": ast,
+        "struct_cmp": struct_cmp,
         "const_failed": const_failed,
         "probes": probes_res,
         "const_ok": const_ok,
